@@ -34,6 +34,7 @@ type c15Cfg struct {
 	Ballast  int   `json:"ballast_entries"` // never-expiring entries in cache 0 (stretches every sweep)
 	Gap      int   `json:"wave_gap_us"`    // pause before each further wave, microseconds
 	Swap     int   `json:"callback_swap"`  // 0 none; 1 SetEvictedCallback(another) after construction; 2 SetEvictedCallback(nil)
+	DropPart bool  `json:"drop_younger_half_first"` // the younger half of the caches is dropped (and must be released) while the older half is still in use
 	Disturb  bool  `json:"slow_callback_once"` // the first evicted callback takes max(40 intervals, 300ms): one sweep overruns; the pace afterwards is measured
 }
 
@@ -51,6 +52,7 @@ var c15Gen = rapid.Custom(func(t *rapid.T) c15Cfg {
 	c.Gap = []int{0, 0, 0, 300, 2500, 15000}[uniform(t, 6, "gap")]
 	c.Swap = []int{0, 0, 1, 2}[uniform(t, 4, "swap")]
 	c.Disturb = uniform(t, 3, "disturb") == 0
+	c.DropPart = rapid.Bool().Draw(t, "dropPart")
 	return c
 })
 
@@ -454,6 +456,29 @@ func oneC15(cfg c15Cfg) (viol string, miss string) {
 		if msg := checkLedgers(cfg, led, led2, effective, expired, "DeleteExpired removed the expired entries"); msg != "" {
 			return msg, ""
 		}
+	}
+	// (iii') drop the younger half only: what they held must be released although older caches (same kind, same
+	// interval) are still alive and in use - whatever the caches share must not keep a dropped one reachable
+	if cfg.DropPart && cfg.Caches >= 2 {
+		keep := cfg.Caches / 2
+		dropped := cfg.Caches - keep
+		for i := keep; i < cfg.Caches; i++ {
+			caches[i] = nil
+		}
+		aux = nil // the auxiliary cache was constructed last: it is the youngest of all
+		tp := time.Now()
+		for int(atomic.LoadInt32(&releasedN)) < dropped || atomic.LoadInt32(&released) != 1 {
+			runtime.GC()
+			time.Sleep(2 * time.Millisecond)
+			for _, c := range caches[:keep] {
+				_ = c.Count() // the survivors stay in use
+			}
+			if time.Since(tp) > 10*time.Second {
+				return "", fmt.Sprintf("10 s after dropping the %d youngest of %d caches (interval %dms) while the others stay in use: contents released for %d of the %d dropped caches (auxiliary, the youngest: %v)", dropped, cfg.Caches, cfg.Interval, atomic.LoadInt32(&releasedN), dropped, atomic.LoadInt32(&released) == 1)
+			}
+		}
+		stats.Inc("configs_partial_drop")
+		stats.Max("max_partial_release_latency_ms", time.Since(tp).Milliseconds())
 	}
 	// (iii) drop everything: janitors stop, contents are released
 	for i := range caches {
